@@ -189,7 +189,8 @@ def compare_values(g, e, case, tags, nontrivial, rows, mode):
             atol = rtol * np.asarray(scale, dtype=np.float64).reshape(np.asarray(e).shape)
         except Exception:
             atol = 0.0
-        ge, ee = g.astype(np.float64), e.astype(np.float64)
+        wide_ = np.complex128 if (g.dtype.kind == "c" or np.asarray(e).dtype.kind == "c") else np.float64
+        ge, ee = g.astype(wide_), np.asarray(e).astype(wide_)
         ok = g.shape == e.shape and bool(np.all((np.abs(ge - ee) <= atol + rtol * np.abs(ee)) | (np.isnan(ge) & np.isnan(ee)) | (ge == ee)))
     else:
         ok = same_array(g, e, dtype=False)
@@ -237,6 +238,16 @@ def gen_case(rng, lens, dtype, vclass, mode=None, name=None, recv="fresh"):
 def directed():
     import random
     rng = random.Random(505)
+    # complex and extended-precision elements: every named reduction in every spelling
+    for dtype in gen.DT_EXOTIC:
+        for lens in ([2, 0, 3, 1], [0, 4], [3]):
+            for name in NAMED:
+                for mode in ("method", "np", "keepdims", "axisNone"):
+                    if mode == "axisNone" and name in ("argmax", "argmin"):
+                        continue
+                    yield gen_case(rng, lens, dtype, "small", mode, name)
+            for name in ("add", "multiply", "maximum", "logical_or"):
+                yield gen_case(rng, lens, dtype, "small", "ufunc.reduce", name)
     # rows of millions of 32-bit / 16-bit / 8-bit integers of the largest magnitude: totals beyond 2**53 (exact in 64-bit integers, not in doubles)
     for dtype, lens in (("int32", [3, 6000001, 0, 2]), ("uint32", [2500000, 0, 4300000]), ("int32", [5000003, 1]), ("int16", [70001, 3]), ("uint8", [300000, 0, 7])):
         for name in ("sum", "add", "mean"):
@@ -312,8 +323,10 @@ def sweep(tier):
 
 def random_case(rng, tier):
     lens, _ = gen.length_vector(rng, tier)
-    dtype = rng.choice(gen.DT_ALL)
+    dtype = rng.choice(gen.DT_ALL) if rng.random() < 0.9 else rng.choice(gen.DT_EXOTIC)
     vclass = rng.choice(["small", "small", "extreme", "nonfinite", "sparse", "sparse", "decimal"])
+    if dtype in gen.DT_EXOTIC and vclass in ("extreme", "nonfinite", "decimal"):
+        vclass = "small"        # (sums of complex / extended-precision values: the exactly representable class)
     return gen_case(rng, lens, dtype, vclass, recv=rng.choice(c02.RECVS) if rng.random() < 0.35 else "fresh")
 
 
